@@ -24,6 +24,7 @@ import AutosarVerif.Properties.C02
 import AutosarVerif.Properties.C11
 import AutosarVerif.Model.Locks
 import AutosarVerif.Lemmas.NoPanic
+import AutosarVerif.Lemmas.MergeNoPanic
 
 namespace AV.C12
 open AV.Locks
@@ -65,5 +66,24 @@ theorem C12_dfs_iterator_never_out_of_range : type_of% @AV.W.dfsAll_never_oob :=
 
 /-- `theorem dfsFileAll_never_oob (f : Nat) (e : Hdr × Items) (maxDepth : Nat) : ¬ dfsFileAllMeetsOob f e maxDepth` -/
 theorem C12_file_iterator_never_out_of_range : type_of% @AV.W.dfsFileAll_never_oob := @AV.W.dfsFileAll_never_oob
+
+
+/-! ### added at the end of the third session (proof pack MP): restated by name
+(`type_of%` keeps the statement identical to the lemma; the signature is quoted in the comment) -/
+
+/-- **the `unwrap()` of `merge_element`** (`find_sub_element(name, u32::MAX)` for the names of two differing sub-elements): unreachable when the sub-elements of both sides are known to the parent type (an invariant of all histories for the model side, what the parser guarantees for the new file)
+`theorem walk_no_panic (typ : Nat) (splitable : Bool) (allB : List (Hdr × Items)) : ∀ (fuel : Nat) (as : List (Nat × (Hdr × Items))) (bs : List (Hdr × Items)) (w : Walk), (∀ a ∈ as, S.findSub typ a.2.1.name 0xFFFFFFFF ≠ none) → (∀ b ∈ bs, S.findSub typ b.1.name 0xFFFFFFFF ≠ none) → walk S V typ splitable allB fuel as bs w ≠ .error .panic` -/
+theorem C12_merge_walk_cannot_panic : type_of% @AV.W.walk_no_panic := @AV.W.walk_no_panic
+
+/-- at every depth, with the fuel `load_buffer` passes (`kb.size < fuel`), given unique / disjoint ids and that paired elements have the same type (`TyBy`: the type is a function of parent type and name)
+`theorem mergeElement_no_panic (g : Nat → Nat → Nat) (fver : Nat → Option Nat) (newFile minVerB : Nat) (fuel : Nat) : ∀ (ha : Hdr) (ka : Items) (files : List Nat) (kb : Items), kb.size < fuel → kidsKnownAt S ha ka → KidsKnown S ka → kidsKnownAt S ha kb → KidsKnown S kb → TyBy g ha.ety.typ ka → TyBy g ha.ety.typ kb → ka.ids.Nodup → (∀ x ∈ kb.ids, x ∉ ka.ids) → (mergeElement S V fver newFile minVerB fuel ha ka files kb).2 ≠ some .panic` -/
+theorem C12_merge_cannot_panic : type_of% @AV.W.mergeElement_no_panic := @AV.W.mergeElement_no_panic
+
+/-- `theorem mergeRes_no_panic (g : Nat → Nat → Nat) (m : Model) (fid : Nat) (name : Bytes) (kids : Items) (st : PM.PState) (hK : KidsKnown S m.rootItems) (hAb : kidsKnownAt S m.rootHdr kids) (hKb : KidsKnown S kids) (hTa : TyBy g m.rootHdr.ety.typ m.rootKids) (hTb : TyBy g m.rootHdr.ety.typ kids) (hn : m.rootKids.ids.Nodup) (hdisj : ∀ x ∈ kids.ids, x ∉ m.rootKids.ids) : (mergeRes S V m fid name kids st).2 ≠ some .panic` -/
+theorem C12_merging_load_cannot_panic : type_of% @AV.W.mergeRes_no_panic := @AV.W.mergeRes_no_panic
+
+/-- the typing hypothesis is necessary on a toy specification: a name whose type differs between two versions, with a child known to one of the two types only, makes the merge of files of those versions panic. In the real tables 281 (type, name) pairs have version-dependent types, and for every one of them the two types know the same sub-element names (scan of the library tables by a probe, not a Lean theorem), so the panic is not reachable there
+`theorem tyGap_panics : (mergeElement tyGapSpec toyEnv (fun g => if g = 0 then some 1 else if g = 1 then some 2 else none) 1 2 10 tgRoot tgKa [0] tgKb).2 = some .panic` -/
+theorem C12_witness_merge_panics_when_paired_types_differ : type_of% @AV.W.tyGap_panics := @AV.W.tyGap_panics
 
 end AV.C12
